@@ -297,6 +297,57 @@ def run(ctx):
         ctx.ob("C15.e", q_, False, "", func=q_, file=capcls.module.rel, node=node_, construct=_norm(node_)[:80],
                fail=f"self.{attr_} - the dict this response keeps filling (merge() extends it) - is put uncopied into state shared by all responses: "
                     "a later merge changes what other responses / later fetches report")
+    # ... nor is a response object itself remembered and handed out again: a memoised constructor (functools.lru_cache / cache around
+    # something that returns Response.construct(..)) returns the *same* object for an identical first page, and merge() has already extended it
+    memo = []
+    for q_, f_ in prog.funcs.items():
+        if not q_.startswith("msmart.") or ".tests." in q_ or q_.split(".")[-1].startswith("test_"):
+            continue
+        decos = [_norm(d.func if isinstance(d, ast.Call) else d) for d in getattr(f_.node, "decorator_list", [])]
+        if not any(d.split(".")[-1] in ("lru_cache", "cache", "cached") for d in decos):
+            continue
+        for n_ in ast.walk(f_.node):
+            if isinstance(n_, ast.Call):
+                r_ = prog.resolve_expr(f_.module, n_.func, f_.cls)
+                rq = getattr(r_, "qual", "")
+                if rq.endswith("Response.construct") or rq.endswith("Response._construct") or (rq in prog.classes and any(k.name == "Response" for k in prog.mro(prog.classes[rq]))):
+                    memo.append((f_, n_))
+    ctx.ob("C15.e", capcls.qual, not memo, "no memoised function hands out response objects (each exchange gets its own, merge() mutates only that one)", func=capcls.qual,
+           file=capcls.module.rel, construct="memoised constructors", node=memo[0][1] if memo else None,
+           fail=(f"{memo[0][0].qual} is memoised and returns response objects: an identical first page yields the object an earlier merge() already "
+                 "extended, so a later fetch reports the earlier additional page's capabilities") if memo else "")
+    # ---- C15.f what the getters report is computed from the merged dict: an attribute derived from the capability dict at construction
+    # time (a precomputed flag, a cached list) and read by a getter is stale after merge() unless merge() recomputes it
+    own = {}
+    for m_ in capcls.methods.values():
+        if not (m_.name == "__init__" or m_.name.startswith("_parse")) or not m_.params:
+            continue
+        sp_ = m_.params[0]
+        for n_ in ast.walk(m_.node):
+            if isinstance(n_, (ast.Assign, ast.AnnAssign, ast.AugAssign)) and getattr(n_, "value", None) is not None:
+                tg_ = n_.targets if isinstance(n_, ast.Assign) else [n_.target]
+                reads_caps = any(isinstance(x, ast.Attribute) and x.attr == "_capabilities" and isinstance(x.ctx, ast.Load) and isinstance(x.value, ast.Name) and x.value.id == sp_
+                                 for x in ast.walk(n_.value))
+                for t_ in tg_:
+                    if reads_caps and isinstance(t_, ast.Attribute) and isinstance(t_.value, ast.Name) and t_.value.id == sp_ and t_.attr != "_capabilities":
+                        own.setdefault(t_.attr, m_)
+    mg = ctx.fn(MERGE)
+    merged_attrs = {k_.split(".", 1)[1] for _pc, _t, _n, rst in summarize(prog, mg).returns for k_ in rst.env if k_.startswith(mg.params[0] + ".")}
+    stale = []
+    for a_, where in sorted(own.items()):
+        if a_ in merged_attrs:
+            continue
+        for m_ in list(capcls.methods.values()) + list(capcls.props_set.values()):
+            if m_.name in ("__init__", "merge") or m_.name.startswith("_parse"):
+                continue
+            for n_ in ast.walk(m_.node):
+                if isinstance(n_, ast.Attribute) and n_.attr == a_ and isinstance(n_.ctx, ast.Load) and isinstance(n_.value, ast.Name) and m_.params and n_.value.id == m_.params[0]:
+                    stale.append((a_, m_, n_, where))
+    ctx.count("derived_attributes", len(own))
+    ctx.ob("C15.f", capcls.qual, not stale, "nothing a getter reads is derived from the capability dict at construction time without being recomputed by merge()",
+           func=stale[0][1].qual if stale else capcls.qual, file=capcls.module.rel, node=stale[0][2] if stale else None, construct="derived attributes",
+           fail=(f"self.{stale[0][0]} is computed from the capability dict in {stale[0][3].name} and read by {stale[0][1].name}, but merge() does not update it: "
+                 "records that arrive in the additional response are ignored by that getter (paged delivery differs from single-response delivery)") if stale else "")
     ctx.require_min("record_loops", 1)
     ctx.require_min("back_edges", 1)          # (a single advance statement at the end of the body is one back edge)
     ctx.require_min("reads", 2)
